@@ -205,23 +205,38 @@ def known_keys(pid):
     return known
 
 def replay(pid, path):
+    """re-execute the cases of a replay file against the current tree: the violation is reproduced if the
+    implementation still answers what was recorded (and, for single-run properties, the batch specification still
+    rejects it); correspondence with the model is re-checked as well"""
     j = json.load(open(path))
-    cases = []
+    recorded = []
     def collect(x):
         if isinstance(x, dict):
             if "desc" in x and "ops" in x:
-                cases.append(Case.from_json(x))
+                recorded.append(x)
             for v in x.values():
                 collect(v)
         elif isinstance(x, list):
             for v in x:
                 collect(v)
     collect(j)
-    if not cases:
-        return {"coverage": {"evaluations": 0, "distinct_nontrivial": 0, "rule": "replay (no case in file: " + j.get("kind", "?") + ")", "samples": []}, "violations": []}
-    run_impl(cases)
-    viols = O.oracle_for(pid, cases)
-    return finish(pid, pid + "_replay", cases, viols, "replay of " + path)
+    if not recorded:
+        return {"coverage": {"evaluations": 1, "distinct_nontrivial": 0, "rule": "replay: the file holds no executable case (%s: %s)" % (j.get("kind"), j.get("message", "")[:200]), "samples": [j.get("message", "")]},
+                "violations": [(j.get("key", "replay"), "replay file without a concrete case: %s" % j.get("message", "")[:300], {"kind": j.get("kind"), "no_failing_input": True})]}
+    cases = [Case.from_json(x) for x in recorded]
+    by_mode = {}
+    for c, x in zip(cases, recorded):
+        by_mode.setdefault((x.get("meta") or {}).get("mode", "ex"), []).append(c)
+    for mode, cs in by_mode.items():
+        run_impl(cs, mode=mode if mode in ("ex", "f64", "f32") else "ex", profile="release" if mode != "ex" else "debug")
+    same = all(x.get("impl") is None or [b.js() for b in c.obs][:len(x["impl"])] == x["impl"][:len(c.obs)] for c, x in zip(cases, recorded))
+    viols = O.spec_check(pid, [c for c in cases if (c.meta or {}).get("mode", "ex") == "ex"], "the batch specification")
+    if same and not viols:
+        viols = [(j.get("key", "replay"), "reproduced: the implementation still answers exactly what the replay recorded (%s)" % j.get("message", "")[:300], {"kind": "replay", "cases": recorded[:2]})]
+    ex_cases = [c for c in cases if (c.meta or {}).get("mode", "ex") == "ex" and len(c.ops) <= 200]
+    for c in ex_cases:
+        c.meta["model"] = True
+    return finish(pid, pid + "_replay", ex_cases, viols, "replay of " + path, {"recorded_outputs_reproduced": same})
 
 # ---------------------------------------------------------------------------------- C14
 def run_C14(rng, tier):
